@@ -205,6 +205,7 @@ def _stream_c(tier):
             for sort in (True, False):
                 for cont, ikind in (("series", "perm"), ("array", "none")):
                     if m == 0 and kkind in ("cat", "two"): continue
+                    if cont == "array" and not sort and m == 4 and tier != "thorough": continue
                     for keys in itertools.product([None, 0, 1], repeat=m): yield _base(keys, kkind=kkind, cont=cont, ikind=ikind, sort=sort, ns="small", kii_false=(cont == "series"))
 
 
